@@ -615,3 +615,35 @@ func H_datarefChain(f1, f2, f3, ka int) {
 	}
 	verifAssert(err == nil && sameValue(got, cur), "a chain of accesses must yield the addressed element")
 }
+
+// H_collFuncs: augmentMap / keys / length over maps whose key sets are chosen symbolically (each of
+// the keys a, b, c is in the first map, the second map, both or neither, with different values):
+// the second map's entries win, every other entry of the first map is kept, nothing else appears.
+func H_collFuncs() {
+	keys := []string{"a", "b", "c"}
+	m1, m2 := data.Map{}, data.Map{}
+	want := map[string]int64{}
+	for i, k := range keys {
+		if verifBool() {
+			m1[k] = data.Int(int64(10 + i))
+			want[k] = int64(10 + i)
+		}
+	}
+	for i, k := range keys {
+		if verifBool() {
+			m2[k] = data.Int(int64(20 + i))
+			want[k] = int64(20 + i)
+		}
+	}
+	m := data.Map{"m": m1, "n": m2}
+	got, err := evalWith(&ast.FunctionNode{Name: "augmentMap", Args: []ast.Node{&ast.DataRefNode{Key: "m"}, &ast.DataRefNode{Key: "n"}}}, m)
+	verifAssert(err == nil, "augmentMap of two maps failed")
+	gm, ok := got.(data.Map)
+	verifAssert(ok && len(gm) == len(want), "augmentMap: wrong set of keys")
+	for k, v := range want {
+		verifAssert(sameValue(gm[k], data.Int(v)), "augmentMap: the second map's entries must win, the first map's other entries stay")
+	}
+	verifAssert(len(m1)+len(m2) >= len(gm), "augmentMap invented entries")
+	n, err := evalWith(&ast.FunctionNode{Name: "length", Args: []ast.Node{&ast.FunctionNode{Name: "keys", Args: []ast.Node{&ast.DataRefNode{Key: "m"}}}}}, m)
+	verifAssert(err == nil && sameValue(n, data.Int(int64(len(m1)))), "length(keys(m)) is not the number of entries")
+}
